@@ -36,6 +36,12 @@ def gen(tier, rng):
             r = "run %s %s %s %s" % (m, src, hx(d), s)
             out.append(r)
             GROUP[r] = base
+    for (m, d, sc) in scripts.leaf_battery(rng, 2500 if tier == "quick" else 25000):
+        base = "run %s slice %s %s" % (m, hx(d), sc)
+        for src in ["slice", "bytes", "stingy", "plus2", "chunk1", "chunk3", "rand1", "osrc1"]:
+            r = "run %s %s %s %s" % (m, src, hx(d), sc)
+            out.append(r)
+            GROUP[r] = base
     return out
 
 def relational(reqs, answers):
